@@ -33,10 +33,17 @@ def run_editor(ctx, name):
     def len_hook(I, call, st, fr):
         # Assumption (C08): all per-step logs of one object have the same length when an editor is entered, and the
         # editor keeps them equal step by step -- so `len(<obj>.<any log>)` is one symbol per object.
-        if isinstance(call.func, ast.Name) and call.func.id == "len" and len(call.args) == 1 and isinstance(call.args[0], ast.Attribute):
+        if isinstance(call.func, ast.Name) and call.func.id == "len" and len(call.args) == 1 and isinstance(call.args[0], (ast.Attribute, ast.Name)):
             a = call.args[0]
-            base = I.eval(a.value, st, fr)
-            if isinstance(base, Obj) and base.cls and any(a.attr == la and is_subclass(ctx, base.cls, c) for (c, la) in spec.LOGS):
+            from ..interp import RefV
+            if isinstance(a, ast.Name):
+                r = st.env.get(a.id)   # a local alias of a log (`records = self.state_record_list`)
+                if not isinstance(r, RefV):
+                    return None
+                base, attr = r.obj, r.attr
+            else:
+                base, attr = I.eval(a.value, st, fr), a.attr
+            if isinstance(base, Obj) and base.cls and any(attr == la and is_subclass(ctx, base.cls, c) for (c, la) in spec.LOGS):
                 sym = f"len({base.name}.$logs)"
                 st.bounds.setdefault(sym, (0, None))
                 return Poly.sym(sym)
@@ -91,9 +98,15 @@ def bound_test_on_log(cond, stepname, cls):
     a, op, b = t.left, t.ops[0], t.comparators[0]
 
     def is_len_log(n):
-        return isinstance(n, ast.Call) and isinstance(n.func, ast.Name) and n.func.id == "len" and len(n.args) == 1 \
-            and isinstance(n.args[0], ast.Attribute) and isinstance(n.args[0].value, ast.Name) and n.args[0].value.id == "self" \
-            and n.args[0].attr in logs_of(cls)
+        if not (isinstance(n, ast.Call) and isinstance(n.func, ast.Name) and n.func.id == "len" and len(n.args) == 1):
+            return False
+        a = n.args[0]
+        if isinstance(a, ast.Name):
+            # local alias of a log of this object, bound once:  records = self.state_record_list
+            from ..effects import Effects
+            al = Effects._aliases(cond.func, None).get(a.id)
+            a = al[0] if al and len(al) == 1 else a
+        return isinstance(a, ast.Attribute) and isinstance(a.value, ast.Name) and a.value.id == "self" and a.attr in logs_of(cls)
 
     def is_step(n):
         return isinstance(n, ast.Name) and n.id == stepname
@@ -243,33 +256,26 @@ def check(ctx):
     ctx.end()
     ctx.begin("R18.4", "project-level insert filters steps that are already absence steps before fan-out", floor=1)
     f = ctx.repo.method(PROJECT, "insert_absence_time_list")
-    pm = parent_map(f.node)
-    calls = [n for n in ast.walk(f.node) if isinstance(n, ast.Call) and isinstance(n.func, ast.Attribute) and n.func.attr == "insert_absence_time_list"]
-    ctx.require(len(calls) >= 3, "expected the three fan-out calls in BaseProject.insert_absence_time_list")
-    for c in calls:
-        arg = c.args[0] if c.args else None
-        con = f"{f.qualname}:dedupe:{ast.unparse(c.func.value)}"
-        ctx.instance(con)
-        ok = False
-        if isinstance(arg, ast.Name) and arg.id not in f.params:
-            apps = [n for n in ast.walk(f.node) if isinstance(n, ast.Call) and isinstance(n.func, ast.Attribute) and n.func.attr in ("append", "add")
-                    and isinstance(n.func.value, ast.Name) and n.func.value.id == arg.id]
-            comps = [n.value for n in ast.walk(f.node) if isinstance(n, ast.Assign) and any(isinstance(t, ast.Name) and t.id == arg.id for t in n.targets)
-                     and isinstance(n.value, (ast.ListComp, ast.Call))]
-
-            def guarded(n):
-                g = pm.get(id(n))
-                while g is not None and g is not f.node:
-                    if isinstance(g, ast.If) and "not in self.absence_time_list" in ast.unparse(g.test):
-                        return True
-                    g = pm.get(id(g))
-                return False
-            if apps and all(guarded(a) for a in apps):
-                ok = True
-            if any("not in self.absence_time_list" in ast.unparse(cv) for cv in comps):
-                ok = True
-        if not ok:
-            ctx.violation(con, f.loc(c), "insert_absence_time_list passes the caller's list unfiltered: a step that is already an absence step is inserted twice")
+    # concrete small case: steps 3 and 5 requested, 3 already registered -> every sub-model must be handed exactly [5]
+    I = mk_interp(ctx, inline=lambda call, callee, depth: False)
+    outs = I.run_function(f, bind={f.params[1]: ListV([Poly.const(3), Poly.const(5)], True, "list")},
+                          heap={("self", "absence_time_list"): ListV([Poly.const(3)], True, "list")})
+    n_calls = 0
+    for st, ex in outs:
+        for c in [e for e in flatten(st.trace) if isinstance(e, Call) and not e.inlined and e.callees and any(q.endswith(".insert_absence_time_list") for q in e.callees)
+                  and isinstance(e.recv, Obj) and e.recv.name != "self"]:
+            n_calls += 1
+            arg = c.args.get(0, c.args.get("absence_time_list"))
+            con = f"{f.qualname}:dedupe:{c.recv.name}"
+            ctx.instance(con, sample={"argument": repr(arg)})
+            if not isinstance(arg, ListV):
+                raise AnalysisError(f"R18.4: the list handed to {c.name} is not determined on the small case ({arg!r})")
+            vals = [x.const_value() for x in arg.items if isinstance(x, Poly) and x.is_const()]
+            if 3 in vals or sorted(vals) != [5]:
+                ctx.violation(con, c.loc, f"insert_absence_time_list([3, 5]) with step 3 already registered hands {sorted(vals)} to {c.recv.name}: "
+                              "a step that is already an absence step is inserted twice" if 3 in vals else
+                              f"insert_absence_time_list([3, 5]) with step 3 already registered hands {sorted(vals)} to {c.recv.name} (expected [5])")
+    ctx.require(n_calls >= 3, "expected the three fan-out calls in BaseProject.insert_absence_time_list")
     ctx.end()
 
 
